@@ -1,1 +1,149 @@
-import RaftLogModel.Spec.RefLog
+/-
+C15 — Payload cache accounting is exact; only pinned entries may exceed the
+limits.
+
+Quantification: every history of public calls (accepted *and* rejected),
+flushes, drains and worker steps with arbitrary outcomes (so every timing of
+the boundary update), for every configuration, starting from a store opened
+on an empty directory. (Histories that pass through a restart are covered by
+the correspondence run only: the replay lemma needs the journal invariant of
+C11, see DESIGN.)
+-/
+import RaftLogModel.Proofs.StoreCache
+import RaftLogModel.Proofs.WorkerCache
+import RaftLogModel.Model.Sys
+namespace RaftLog
+
+/-- No step that keeps the store alive. -/
+def Step.live : Step → Bool
+  | .drop => false
+  | .openWith _ => false
+  | _ => true
+
+theorem CacheInv.of_same {s : Store} {c : Cache} (h : CacheInv s) (hs : SameItems c s.cache) :
+    CacheInv { s with cache := c } :=
+  ⟨⟨by simp only [hs.2.1, hs.1]; exact h.ok.size_eq, by simp only [hs.1]; exact h.ok.sorted⟩,
+   by simp only [hs.1]; exact h.le_last⟩
+
+/-- The invariant at system level. -/
+def SysCacheInv (y : Sys) : Prop := ∀ s, y.store = some s → CacheInv s
+
+theorem fresh_store (cfg : Cfg) :
+    ∃ s, (Sys.fresh cfg).store = some s ∧ s.cache.items = [] ∧ s.cache.size = 0 := by
+  simp [Sys.fresh, Sys.open, openStore, Fs.linkedIds, openLoop, emptyStore, Fs.has, Fs.find]
+
+theorem fresh_cacheInv (cfg : Cfg) : SysCacheInv (Sys.fresh cfg) := by
+  intro s hs
+  obtain ⟨s0, h0, hi, hz⟩ := fresh_store cfg
+  rw [h0] at hs
+  injection hs with hs
+  subst hs
+  refine ⟨⟨by rw [hz, hi]; rfl, by rw [hi]; exact List.Pairwise.nil⟩, ?_⟩
+  intro e he
+  rw [hi] at he
+  cases he
+
+theorem step_cacheInv (y : Sys) (st : Step) (hl : st.live = true) (h : SysCacheInv y) :
+    SysCacheInv (y.step st) := by
+  intro s' hs'
+  cases st with
+  | drop => cases hl
+  | openWith cfg => cases hl
+  | call op =>
+    simp only [Sys.step, Sys.call] at hs'
+    cases hst : y.store with
+    | none => simp [hst] at hs'
+    | some s =>
+      simp only [hst] at hs'
+      simp only [Option.some.injEq] at hs'
+      subst hs'
+      exact call_cacheInv _ op (h s hst)
+  | flush cb =>
+    simp only [Sys.step, Sys.flush] at hs'
+    cases hst : y.store with
+    | none => simp [hst] at hs'
+    | some s =>
+      simp only [hst] at hs'
+      simp only [Option.some.injEq] at hs'
+      subst hs'
+      have := h s hst
+      split <;> exact ⟨this.ok, this.le_last⟩
+  | worker out =>
+    simp only [Sys.step, Sys.workerStep] at hs'
+    cases hst : y.store with
+    | none => simp [hst] at hs'
+    | some s =>
+      simp only [hst, Option.some.injEq] at hs'
+      subst hs'
+      exact (h s hst).of_same (WCtx.step_same _ out)
+  | workerIdle =>
+    simp only [Sys.step, Sys.workerIdle] at hs'
+    cases hst : y.store with
+    | none => simp [hst] at hs'
+    | some s =>
+      simp only [hst, Option.some.injEq] at hs'
+      subst hs'
+      exact (h s hst).of_same (WCtx.runQuiet_same _ _)
+  | drain =>
+    simp only [Sys.step, Sys.drain] at hs'
+    cases hst : y.store with
+    | none => simp [hst] at hs'
+    | some s =>
+      simp only [hst, Option.some.injEq] at hs'
+      subst hs'
+      have := h s hst
+      refine ⟨Cache.drainEvictable_ok this.ok, ?_⟩
+      obtain ⟨pre, h1, _⟩ := drainLoop_spec s.cache.lastEvictable s.cache.size s.cache.items this.ok.size_eq
+      have hl := this.le_last
+      rw [h1] at hl
+      exact hl.of_suffix
+
+theorem run_cacheInv (y : Sys) (steps : List Step) (hl : ∀ st ∈ steps, st.live = true)
+    (h : SysCacheInv y) : SysCacheInv (y.run steps) := by
+  induction steps generalizing y with
+  | nil => exact h
+  | cons st rest ih =>
+    simp only [Sys.run, List.foldl_cons]
+    exact ih (y.step st) (fun s hs => hl s (List.mem_cons_of_mem _ hs))
+      (step_cacheInv y st (hl st List.mem_cons_self) h)
+
+/-- **Accounting is exact** in every reachable state: the reported byte size is
+the sum of the resident payload sizes (the item count is the length of the
+resident list by definition), resident keys are distinct and increasing, and
+none lies above `last`. -/
+theorem c15_accounting_exact (cfg : Cfg) (steps : List Step) (hl : ∀ st ∈ steps, st.live = true)
+    (s : Store) (hs : ((Sys.fresh cfg).run steps).store = some s) :
+    s.cache.size = sumLen s.cache.items ∧ Sorted s.cache.items ∧ KeysLe s.cache.items s.st.last := by
+  have := run_cacheInv _ steps hl (fresh_cacheInv cfg) s hs
+  exact ⟨this.ok.size_eq, this.ok.sorted, this.le_last⟩
+
+/-- **Only pinned entries exceed the limits**: right after the insertion an
+`append` performs (the only place entries are added), if either limit is
+exceeded every resident id lies above the boundary in force. -/
+theorem c15_over_limit_only_pinned (c : Cache) (k : LogId) (v : Bytes) (h : c.OK)
+    (hk : ∀ e ∈ c.items, e.1.lt k = true)
+    (hover : (c.insert k v).items.length > c.maxItems ∨ (c.insert k v).size > c.capacity) :
+    KeysGt (c.insert k v).items c.lastEvictable := by
+  unfold Cache.insert at hover ⊢
+  have hok : ({ c with items := insertSorted k v c.items, size := c.size + v.length } : Cache).OK := by
+    refine ⟨?_, ?_⟩
+    · simp only [insertSorted_of_all_lt k v c.items hk, sumLen_append, sumLen]
+      have := h.size_eq; omega
+    · simp only [insertSorted_of_all_lt k v c.items hk]
+      unfold Sorted
+      rw [List.pairwise_append]
+      refine ⟨h.sorted, List.pairwise_singleton _ _, ?_⟩
+      intro a ha b hb; simp at hb; subst hb; exact hk a ha
+  exact Cache.tryEvict_over_limit hok hover
+
+/-- **After a drain** no resident entry lies at or below the boundary. -/
+theorem c15_drained (c : Cache) (h : c.OK) : KeysGt c.drainEvictable.items c.lastEvictable :=
+  Cache.drainEvictable_keysGt h
+
+/-- Non-vacuity: a concrete reachable state with a non-empty cache. -/
+example : ∃ s, ((Sys.fresh {}).run [.call (.append [(⟨1, 0⟩, [1, 2, 3])])]).store = some s ∧
+    s.cache.items.length = 1 := by
+  refine ⟨_, rfl, ?_⟩
+  decide
+
+end RaftLog
